@@ -4,6 +4,7 @@ from __future__ import annotations
 
 import ast
 
+from ..alpha import Loc
 from ..const import UNKNOWN, ClassRef, Folder
 from ..flow import Slicer, always_exits, flat_guards, guards, parent_map
 from ..model import FuncInfo, Model, dotted, norm, walk_no_nested, walk_with_lambdas
@@ -45,6 +46,25 @@ def header_plan(model: Model, folder: Folder, fi: FuncInfo) -> tuple[list[dict],
             reads.append(n)
     reads.sort(key=lambda c: c.lineno)
     facts['reads'] = reads
+    # the length variable: decoded from bytes 16..18 of what the first read returned - whatever it is called
+    loc = Loc(model, fi)
+    hdr = [nm for nm, ds in loc.defs.items() if any(v is not None and reads and (v is reads[0] or (isinstance(v, ast.Await) and v.value is reads[0])) for v, _, _ in ds)]
+    # the generator twin binds the header in a `for ... in self._reader(19)` loop
+    hdr += [nm for nm, ds in loc.defs.items() if any(h.startswith('for') and reads and v is reads[0] for v, h, _ in ds)]
+
+    def is_len_field(v: ast.AST) -> bool:
+        for x in ast.walk(v):
+            if isinstance(x, ast.Subscript) and isinstance(x.slice, ast.Slice) and isinstance(x.value, ast.Name) and x.value.id in hdr:
+                if folder.fold(x.slice.lower, mod, fi.cls) == 16 and folder.fold(x.slice.upper, mod, fi.cls) == 18:
+                    return True
+        return False
+
+    lvars = loc.from_value(is_len_field)
+    facts['length_var'] = lvars[0] if len(lvars) == 1 else None
+    L = facts['length_var']
+
+    def lname(e: ast.AST) -> str:
+        return 'length' if isinstance(e, ast.Name) and e.id == L else norm(e)
     if reads:
         facts['first_read_arg'] = folder.fold(reads[0].args[0], mod, fi.cls) if reads[0].args else UNKNOWN
     for st in fi.node.body:
@@ -89,7 +109,7 @@ def header_plan(model: Model, folder: Folder, fi: FuncInfo) -> tuple[list[dict],
                         highs.append('>=' + (dotted(rhs) or norm(rhs)))
             if lows and highs:
                 kind = 'range'
-                consts = {'low': lows, 'high': highs, 'var': test.values[0].left.id if isinstance(test.values[0], ast.Compare) and isinstance(test.values[0].left, ast.Name) else '?'}
+                consts = {'low': lows, 'high': highs, 'var': sorted({lname(v.left) for v in test.values if isinstance(v, ast.Compare)})}
         if kind == 'other' and isinstance(test, ast.UnaryOp) and isinstance(test.op, ast.Not) and isinstance(test.operand, ast.Call):
             call = test.operand
             if isinstance(call.func, ast.Name):
@@ -100,7 +120,7 @@ def header_plan(model: Model, folder: Folder, fi: FuncInfo) -> tuple[list[dict],
                         src = n.value
                 if src is not None and 'Message.Length' in norm(src):
                     kind = 'type-length'
-                    consts = {'table': 'Message.Length', 'arg': norm(call.args[0]) if call.args else ''}
+                    consts = {'table': 'Message.Length', 'arg': lname(call.args[0]) if call.args else ''}
         if kind == 'other' and isinstance(test, ast.UnaryOp) and isinstance(test.op, ast.Not) and isinstance(test.operand, ast.Name):
             # `if not number:` -> complete message without body
             if err is None:
@@ -108,10 +128,10 @@ def header_plan(model: Model, folder: Folder, fi: FuncInfo) -> tuple[list[dict],
                 continue
         plan.append({'kind': kind, 'err': err, 'consts': consts, 'line': st.lineno, 'test': txt, 'node': st})
     # body length expression
-    for n in walk_no_nested(fi.node):
-        if isinstance(n, ast.Assign) and len(reads) >= 2 and isinstance(n.targets[0], ast.Name) and reads[1].args and isinstance(reads[1].args[0], ast.Name) and n.targets[0].id == reads[1].args[0].id:
-            if isinstance(n.value, ast.BinOp) and isinstance(n.value.op, ast.Sub):
-                facts['body_len'] = (norm(n.value.left), folder.fold(n.value.right, mod, fi.cls))
+    if len(reads) >= 2 and reads[1].args:
+        v = loc.resolve(reads[1].args[0])
+        if isinstance(v, ast.BinOp) and isinstance(v.op, ast.Sub):
+            facts['body_len'] = (lname(v.left), folder.fold(v.right, mod, fi.cls))
     return plan, facts
 
 
@@ -187,12 +207,15 @@ def check(model: Model, run: Run) -> None:
         rg = next((p for p in plan if p['kind'] == 'range'), None)
         if rg is not None:
             run.check(
-                rg['consts'].get('low') == [19] and rg['consts'].get('high') == ['self.msg_size'],
+                rg['consts'].get('low') == [19] and rg['consts'].get('high') == ['self.msg_size'] and rg['consts'].get('var') == ['length'],
                 fi.qualname,
                 'range check: length < %s or length > %s' % (rg['consts'].get('low'), rg['consts'].get('high')),
                 fi.loc(rg['node']),
                 'length must be refused below 19 and above the negotiated maximum held in self.msg_size',
             )
+        tl = next((p for p in plan if p['kind'] == 'type-length'), None)
+        if tl is not None:
+            run.check(tl['consts'].get('arg') == 'length', fi.qualname, 'per-type validator is applied to the length field (%s)' % tl['consts'].get('arg'), fi.loc(tl['node']), 'Message.Length validates the length of the header')
         run.check(facts.get('first_read_arg') == 19, fi.qualname, 'header read asks for %s bytes' % facts.get('first_read_arg'), fi.loc(), 'the header is 19 bytes')
         run.check(
             facts.get('body_len') is not None and facts['body_len'][1] == 19 and facts['body_len'][0] == 'length',
